@@ -730,11 +730,7 @@ func replayWitnesses(r *vk.Run) {
 	strictMode = true
 	defer func() { strictMode = false }()
 	for _, w := range witnesses {
-		if !knownOpen[w.class] && !r.OpenClass(w.class) {
-			// not (or no longer) listed as open: the witness is an ordinary regression case
-			strictMode = true
-		}
-		f := checkCase(r, w.c)
+		f := checkCase(r, w.c) // strict: a witness of a class that is no longer open is an ordinary regression case
 		switch {
 		case f != nil && (knownOpen[w.class] || r.OpenClass(w.class)):
 			fmt.Printf("KNOWN-FINDING: property=C11 class=%s %s; witness %s\n", w.class, w.what, w.c.template())
@@ -856,6 +852,16 @@ func (c Case) shapeClasses() []string {
 	return out
 }
 
+// classOf: the first listed class of the given kind the case belongs to ("" if none).
+func (c Case) classOf(kind string) string {
+	for _, k := range c.shapeClasses() {
+		if strings.HasPrefix(k, kind+"/") {
+			return k
+		}
+	}
+	return ""
+}
+
 // tolerated: the first open class of the given kind the case belongs to.
 func (c Case) tolerated(r *vk.Run, kind string) (string, bool) {
 	for _, k := range c.shapeClasses() {
@@ -943,7 +949,12 @@ func render(c Case) (string, vk.Res) {
 
 func checkCase(r *vk.Run, c Case) (out *vk.Fail) {
 	defer r.Watch("path", c)()
+	// class: a full class name, or the bare kind "clean-failure" / "wrong-value",
+	// resolved to the listed shape class of that kind the case belongs to, if any
 	fail := func(class, f string, a ...interface{}) *vk.Fail {
+		if class == "clean-failure" || class == "wrong-value" {
+			class = c.classOf(class)
+		}
 		return &vk.Fail{Kind: "path", Class: class, Case: c, Msg: fmt.Sprintf(f, a...)}
 	}
 	defer func() {
@@ -980,7 +991,7 @@ func checkCase(r *vk.Run, c Case) (out *vk.Fail) {
 			r.Exclude(cls)
 			return nil
 		}
-		return fail("", "%s: %s", where, res)
+		return fail(cls, "%s: %s", where, res)
 	}
 
 	fc := c.forCut()
@@ -1057,6 +1068,14 @@ func refNilAtMethod(start cur, c Case) bool {
 }
 
 type failFn func(class, f string, a ...interface{}) *vk.Fail
+
+// wrongClass: the class of "something was rendered for a path that cannot be completed".
+func wrongClass(why string) string {
+	if why == "unknown-method-on-pointer" {
+		return "wrong-value/unknown-method-on-pointer"
+	}
+	return "wrong-value"
+}
 
 // untwice splits the output of a Twice case into its two renderings and
 // returns the one to be judged: the one that is not exact, if any.
@@ -1141,10 +1160,10 @@ func judge(r *vk.Run, c Case, w walkRes, res vk.Res, path, where string, fail fa
 				r.Exclude(cls)
 				return nil
 			}
-			return fail("", "%s: the path is completable (Go navigation gives %q) but plush gave %s", where, path, res)
+			return fail("clean-failure", "%s: the path is completable (Go navigation gives %q) but plush gave %s", where, path, res)
 		}
 		shapeStats.add(sig, 3)
-		return fail("", "%s: WRONG VALUE: Go navigation gives %q, plush gave %s", where, path, res)
+		return fail("wrong-value", "%s: WRONG VALUE: Go navigation gives %q, plush gave %s", where, path, res)
 	default:
 		r.Count(c.key(), "broken/"+w.why)
 		sample(r, c, src, "error or empty output ("+w.why+")", res)
@@ -1157,7 +1176,7 @@ func judge(r *vk.Run, c Case, w walkRes, res vk.Res, path, where string, fail fa
 			r.Exclude(k)
 			return nil
 		}
-		return fail("", "%s: navigation cannot be completed (%s) but plush rendered %s instead of failing or rendering nothing", where, w.why, res)
+		return fail(wrongClass(w.why), "%s: navigation cannot be completed (%s) but plush rendered %s instead of failing or rendering nothing", where, w.why, res)
 	}
 }
 
@@ -1185,7 +1204,7 @@ func judgeFor(r *vk.Run, c Case, fc int, start cur, res vk.Res, where string, fa
 				r.Exclude(k)
 				return nil
 			}
-			return fail("", "%s: the iterable cannot be reached (%s) but plush rendered %s", where, why, res)
+			return fail(wrongClass(why), "%s: the iterable cannot be reached (%s) but plush rendered %s", where, why, res)
 		}
 	}
 	var why string
@@ -1224,6 +1243,7 @@ func judgeFor(r *vk.Run, c Case, fc int, start cur, res vk.Res, where string, fa
 	}
 	pre := spellPath(prefix)
 	want := map[string]string{} // key -> expected value ("" = must be empty)
+	whys := map[string]string{} // key -> why the element's path cannot be completed
 	allOK, anyUnspec := true, false
 	for _, e := range els {
 		w := walk(e.c, rest)
@@ -1242,6 +1262,7 @@ func judgeFor(r *vk.Run, c Case, fc int, start cur, res vk.Res, where string, fa
 		default:
 			allOK = false
 			want[e.key] = ""
+			whys[e.key] = w.why
 			if k := "wrong-value/" + w.why; w.why == "unknown-method-on-pointer" && isOpen(r, k) {
 				r.Exclude(k)
 				return nil
@@ -1269,7 +1290,7 @@ func judgeFor(r *vk.Run, c Case, fc int, start cur, res vk.Res, where string, fa
 				r.Exclude(k)
 				return nil
 			}
-			return fail("", "%s: every element's path is completable (%v) but plush gave %s", where, want, res)
+			return fail("clean-failure", "%s: every element's path is completable (%v) but plush gave %s", where, want, res)
 		}
 		shapeStats.add(sig, 2)
 		return nil
@@ -1314,9 +1335,9 @@ func judgeFor(r *vk.Run, c Case, fc int, start cur, res vk.Res, where string, fa
 		default:
 			shapeStats.add(sig, 3)
 			if exp == "" {
-				return fail("", "%s: element %s cannot be navigated further but plush rendered %q for it (whole output %q)", where, k, v, res.Out)
+				return fail(wrongClass(whys[k]), "%s: element %s cannot be navigated further but plush rendered %q for it (whole output %q)", where, k, v, res.Out)
 			}
-			return fail("", "%s: WRONG VALUE for element %s: Go navigation gives %q, plush gave %q (whole output %q)", where, k, exp, v, res.Out)
+			return fail("wrong-value", "%s: WRONG VALUE for element %s: Go navigation gives %q, plush gave %q (whole output %q)", where, k, exp, v, res.Out)
 		}
 	}
 	if len(seen) != len(want) {
@@ -1329,7 +1350,7 @@ func judgeFor(r *vk.Run, c Case, fc int, start cur, res vk.Res, where string, fa
 			r.Exclude(k)
 			return nil
 		}
-		return fail("", "%s: completable element paths rendered empty: want %v, got %q", where, want, res.Out)
+		return fail("clean-failure", "%s: completable element paths rendered empty: want %v, got %q", where, want, res.Out)
 	}
 	shapeStats.add(sig, 0)
 	return nil
@@ -1640,6 +1661,11 @@ func setup(t *testing.T) *vk.Run {
 		if why := c.wellFormed(); why != "" {
 			return &vk.Fail{Kind: "decode", Msg: why}
 		}
+		// a replayed case is judged against the property itself: no class is
+		// tolerated; the failure carries its class so that the kit can match it
+		// against the open findings
+		strictMode = true
+		defer func() { strictMode = false }()
 		return checkCase(r, c)
 	})
 	return r
@@ -1725,6 +1751,15 @@ func TestProp(t *testing.T) {
 	})
 
 	dumpShapes(r)
+
+	// harness sanity: the reference copies of the data were never written
+	for v := range refRoots {
+		if !reflect.DeepEqual(refRoots[v], mkRoot(v)) {
+			fmt.Printf("HARNESS-ERROR property=C11: the reference data of recipe %d changed during the run\n", v)
+			r.Finish()
+			os.Exit(2)
+		}
+	}
 }
 
 var rootNames = []string{"r", "x", "M", "Mid", "Leaves", "Name"}
